@@ -8,7 +8,7 @@
    constant evaluator; here the operands are arbitrary (parameters, assignments) and the object is the IR. *)
 From PV Require Import Lib.Py Spec.CIntSpec Spec.CExprSpec Gen.ceval Model.CEval Model.CGenExpr
                        Model.CGenExprRun Spec.IRSyntax Spec.IRSem Proofs.C01_base Proofs.C01_arith Proofs.C01_expr
-                       Proofs.C01_refuted Gen.c01_targets.
+                       Proofs.C01_refuted Proofs.C01_ptr Model.CGenPtr Gen.c01_targets.
 Open Scope Z_scope.
 
 (* -- typing: the type CSemantics assigns is the C11 type (6.3.1.1, 6.3.1.8, 6.5.x) -- *)
@@ -194,6 +194,35 @@ Theorem c01_orig_fragment :
     = ([], [TUShort]).
 Proof. exact orig_fragment. Qed.
 Print Assumptions c01_orig_fragment.
+
+(* -- pointer +/- integer (gen_binop): scaling by sizeof and conversion of the index to the pointer width.
+      With the index scaled in the pointer type (fixes/C01-pointer-index-scaling.diff; what p[n] and p += n
+      always did) the IR computes the C address modulo the pointer width for EVERY element size, index type,
+      index value and both operators; in bounds it is exactly a +/- n * esize. -- *)
+Theorem c01_ptr_arith_exact : forall (k : cfg) (sub : bool) (it : ty) (a n esize : Z), 0 <= ptr_bytes k ->
+  ptr_arith k true sub it a n esize = ODone (c_ptr k sub a n esize) /\
+  (0 <= (if sub then a - n * esize else a + n * esize) < pw k ->
+   ptr_arith k true sub it a n esize = ODone (if sub then a - n * esize else a + n * esize)).
+Proof.
+  intros k sub it a n esize H. split; [now apply ptr_arith_fixed|now apply ptr_arith_fixed_inbounds].
+Qed.
+Print Assumptions c01_ptr_arith_exact.
+(* the code before that fix multiplies in the IR type of the index: exact only when n * esize fits that type *)
+Theorem c01_ptr_arith_orig_partial : forall (k : cfg) (sub : bool) (it : ty) (b : Z) (sg : bool) (a n esize : Z),
+  0 <= ptr_bytes k -> int_shape k it = Some (b, sg) ->
+  wrap_bits b sg esize = esize -> wrap_bits b sg (n * esize) = n * esize ->
+  ptr_arith k false sub it a n esize = ODone (c_ptr k sub a n esize).
+Proof. exact ptr_arith_orig. Qed.
+Print Assumptions c01_ptr_arith_orig_partial.
+(* long long *p; char n = 31; p + n: 31 * 8 wraps to -8 in i8, the address is p - 8 instead of p + 248 *)
+Theorem c01_ptr_scaling_refuted :
+  exists k it a n esize, ptr_arith k false false it a n esize <> ODone (c_ptr k false a n esize) /\
+                         ptr_arith k true false it a n esize = ODone (c_ptr k false a n esize).
+Proof.
+  exists default_cfg, I8, 1000, 31, 8. destruct ptr_scaling_refuted as (A & B & C). rewrite A, B, C.
+  split; [discriminate|reflexivity].
+Qed.
+Print Assumptions c01_ptr_scaling_refuted.
 
 Example c01_nonvacuous :
   wf_ctx (cg_ctx tg_x86_64) /\
